@@ -34,6 +34,7 @@ type discCase struct {
 	E          int       `json:"e"`
 	DeadlineMs int       `json:"deadline_ms"`
 	Adv        []discAdv `json:"adv"`
+	AdvRounds  int       `json:"adv_rounds"` // the adversarial messages are sent that many more times, one round per interval (a member that retransmits like the honest ones)
 	Seed       int64     `json:"seed"`
 	Policy     string    `json:"policy"` // "random" | "starve:<id>" | "lifo"
 	IntervalUs int       `json:"interval_us"`
@@ -162,6 +163,16 @@ func discExec(t int, c discCase) []obj {
 		r.abs[re] = id
 		r.tagOf[string(discTag(r.topic, re))] = id
 	}
+	// identifiers that occur only inside adversarial views (neither members nor listed outsiders) are renamed as well
+	for k, v := range c.IDMap {
+		var id int
+		if _, err := fmt.Sscan(k, &id); err == nil {
+			if _, known := r.real[id]; !known {
+				r.real[id] = v
+				r.abs[v] = id
+			}
+		}
+	}
 	var membership []uint16
 	for _, m := range c.Members {
 		membership = append(membership, uint16(r.real[m]))
@@ -262,7 +273,14 @@ func discExec(t int, c discCase) []obj {
 			members[to].HandleMessage(uint16(r.toReal(from)), data)
 		}()
 	}
+	advRounds := c.AdvRounds
+	lastRound := time.Now()
 	for nRet < len(c.Starters) && time.Now().Before(hard) {
+		if len(adv) == 0 && advRounds > 0 && time.Since(lastRound) >= time.Duration(c.IntervalUs)*time.Microsecond {
+			adv = append([]discAdv{}, c.Adv...)
+			advRounds--
+			lastRound = time.Now()
+		}
 		// collect candidate actions
 		r.mu.Lock()
 		var nonEmpty [][2]int
